@@ -12,7 +12,7 @@ from mc import core, explore
 
 LEVEL = "model_checking"
 TYPES = ["a", "b", "c"]
-STATES = ["active", "s2"]
+STATES = ["active", "s2", "inactive"]      # "inactive" contains "active": state names are compared, not searched
 
 
 def _mk_model(collector=True):
@@ -95,6 +95,9 @@ class System:
         ops.append(["reset"])
         for i in live:
             ops.append(["set_state", i, "s2"])
+        if live:
+            ops.append(["set_state", live[0], "inactive"])
+
         # a further agent type is registered while agents are alive; then agents of it can be created
         if not ref.has_c:
             ops.append(["register_c"])
@@ -247,6 +250,22 @@ def _worker_nocoll(hists):
     return explore.expand_many(SYSTEM_NOCOLL, hists)
 
 
+def batch_probes():
+    """size ladder: a large batch created for a type that has agents already (and for an empty type), every query compared afterwards"""
+    out = []
+    for system, tag in ((SYSTEM, "fresh"), (SYSTEM_AGED, "aged")):
+        for first in (["create", "a"], ["create_n", "b", 2]):
+            for n in (30, 100, 120, 260):
+                m, ref = system.new()
+                hist = [first, ["create_n", "a", n], ["delete", 0 if tag == "fresh" else AGED - 1], ["create_n", "a", n]]
+                for op in hist:
+                    v = system.apply(m, ref, op)
+                    if v:
+                        out.append((tag, hist, v[0]))
+                        break
+    return out
+
+
 def run(ctx):
     depth = 6 if ctx.tier == "quick" else 8
     res = explore.bfs(SYSTEM, depth, worker_fn=_worker)
@@ -262,6 +281,8 @@ def run(ctx):
     res3 = explore.bfs(SYSTEM_NOCOLL, depth_nc, worker_fn=_worker_nocoll)
     for sig, hist, detail in res3.violations:
         ctx.violation("C14/no-data-collector/" + sig, {"history": hist, "nocoll": True}, detail)
+    for tag, hist, (sig, detail) in batch_probes():
+        ctx.violation("C14/batch/%s" % sig, {"history": hist, "aged": tag == "aged"}, detail)
     ctx.finish({
         "states": res.states + res2.states + res3.states, "transitions": res.transitions + res2.transitions + res3.transitions,
         "traces_validated_against_impl": res.transitions + res2.transitions + res3.transitions,
